@@ -28,7 +28,9 @@ LEVEL = "model_checking"
 def perturb(v, mode):
     """Scale every numeric leaf (recursively); structure and types are kept."""
     if isinstance(v, dict):
-        return {k: (perturb(x, mode) if k != "rounding" else x) for k, x in v.items()}
+        # rounding specifications belong to the group too: their numeric leaves (base, offset) are perturbed as well; the rules
+        # rounded with the group's specification count as its users (Trace_Runs.Users)
+        return {k: perturb(x, mode) for k, x in v.items()}
     if isinstance(v, np.ndarray) and v.dtype.kind == "f":
         w = v.copy()
         fin = np.isfinite(w)
